@@ -242,7 +242,7 @@ func runC05(ctx Ctx) int {
 		}
 		return true
 	})
-	deadline := devx.Deadline(map[string]time.Duration{"quick": 4 * time.Minute, "thorough": 25 * time.Minute}[run.Tier])
+	deadline := devx.Deadline(map[string]time.Duration{"quick": 4 * time.Minute, "thorough": 15 * time.Minute}[run.Tier])
 	_, complete := parallel(len(items), deadline, func(i int) {
 		it := items[i]
 		v := c05Judge(it.p)
@@ -276,7 +276,7 @@ func runC05(ctx Ctx) int {
 	})
 	cb, cs := 1, 90
 	if run.Tier == "thorough" {
-		cb, cs = 2, 1200
+		cb, cs = 2, 180
 	}
 	runConc(run, "C05", cb, cs)
 	run.Sample(items[0].p)
